@@ -784,39 +784,39 @@ Proof. exact parser_of_exact. Qed.
 Print Assumptions C16_zsh_lookup_exact.
 
 (** total: for every [linked] tree with a bin name no [expect] fires and the recursion through [parser_of] ends *)
-Theorem C16_zsh_total : forall c d b, c_bin c = Some b -> linked c -> exists s, zsh_script c d = Some s.
+Theorem C16_zsh_total : forall bl c d b, c_bin c = Some b -> linked c -> exists s, zsh_script bl c d = Some s.
 Proof. exact zsh_total. Qed.
 Print Assumptions C16_zsh_total.
 
-Theorem C16_zsh_deterministic : forall c d s1 s2, zsh_script c d = Some s1 -> zsh_script c d = Some s2 -> s1 = s2.
+Theorem C16_zsh_deterministic : forall bl c d s1 s2, zsh_script bl c d = Some s1 -> zsh_script bl c d = Some s2 -> s1 = s2.
 Proof. exact zsh_deterministic. Qed.
 Print Assumptions C16_zsh_deterministic.
 
 (** in the class the recursion through the lookup computes a function that is structural in the tree ... *)
-Theorem C16_zsh_sections_structural : forall f p d pb,
+Theorem C16_zsh_sections_structural : forall bl f p d pb,
   c_bin p = Some pb -> linked p -> nospace p -> sibling_names p -> (depth p <= f)%nat ->
-  get_subcommands_of f p d = Some (zspec_subs p d).
+  get_subcommands_of bl f p d = Some (zspec_subs bl p d).
 Proof. exact get_subcommands_of_spec. Qed.
 Print Assumptions C16_zsh_sections_structural.
 
 (** ... namely: one [case] block per command that has subcommands, with one arm per name and visible alias of every
     subcommand; the arm = its label, the [_arguments] block of THAT subcommand, the section of that subcommand *)
-Theorem C16_zsh_section_shape : forall p d,
-  zspec_subs p d =
+Theorem C16_zsh_section_shape : forall bl p d,
+  zspec_subs bl p d =
   if is_nil (c_subs p) then [] else
   zcase_block (c_name p) (space_to_hyphen (bin_or_default p)) (dec (N.of_nat (List.length (get_positionals p)) + 1))
     (zjoin znl (flat_map (fun q : cmd * cdesc =>
-                   map (arm (args_block (fst q) (snd q) (Some p)) (zspec_subs (fst q) (snd q)))
+                   map (arm (args_block bl (fst q) (snd q) (Some p)) (zspec_subs bl (fst q) (snd q)))
                        (get_name_and_visible_aliases (fst q)))
                 (zipd cd0 (c_subs p) (cd_subs d)))).
 Proof. exact zspec_subs_unfold. Qed.
 Print Assumptions C16_zsh_section_shape.
 
 (** the whole file in the class *)
-Theorem C16_zsh_script_shape : forall c d b,
+Theorem C16_zsh_script_shape : forall bl c d b,
   zsh_ok c b ->
   exists details, zsubcommand_details c d = Some details /\
-    zsh_pieces c d = Some ([Zx (script_head b)] ++ args_block c d None ++ zspec_subs c d
+    zsh_pieces bl c d = Some ([Zx (script_head b)] ++ args_block bl c d None ++ zspec_subs bl c d
                            ++ [Zx (lf ++ [125] ++ lf ++ lf)] ++ details ++ [Zx (script_tail b)]).
 Proof. exact zsh_pieces_shape. Qed.
 Print Assumptions C16_zsh_script_shape.
@@ -824,15 +824,15 @@ Print Assumptions C16_zsh_script_shape.
 (** dispatch, every depth: for EVERY path of names or visible aliases the file contains the arm label of the last word
     followed by the [_arguments] block of the node the path leads to (it sits in the arm of the word before, and so on:
     [C16_zsh_section_shape]); every [reach] path is such a path *)
-Theorem C16_zsh_path_block : forall c d b ws n nd par,
+Theorem C16_zsh_path_block : forall bl c d b ws n nd par,
   zsh_ok c b -> dreach c d ws n nd par ->
-  exists s, zsh_script c d = Some s /\
-    sublist (zrender ([Zx ([40] ++ last ws [] ++ [41])] ++ znl ++ args_block n nd (Some par))) s.
+  exists s, zsh_script bl c d = Some s /\
+    sublist (zrender ([Zx ([40] ++ last ws [] ++ [41])] ++ znl ++ args_block bl n nd (Some par))) s.
 Proof. exact zsh_script_path. Qed.
 Print Assumptions C16_zsh_path_block.
 
-Theorem C16_zsh_root_block : forall c d b,
-  zsh_ok c b -> exists s, zsh_script c d = Some s /\ sublist (zrender (args_block c d None)) s.
+Theorem C16_zsh_root_block : forall bl c d b,
+  zsh_ok c b -> exists s, zsh_script bl c d = Some s /\ sublist (zrender (args_block bl c d None)) s.
 Proof. exact zsh_script_root. Qed.
 Print Assumptions C16_zsh_root_block.
 
@@ -843,12 +843,12 @@ Print Assumptions C16_zsh_reach_is_path.
 
 (** one level: the block of a command has a spec line for every spelling [get_short_and_visible_aliases] /
     [get_long_and_visible_aliases] return for an option (hidden ones included) ... *)
-Theorem C16_zsh_block_options : forall c d g a ad,
+Theorem C16_zsh_block_options : forall bl c d g a ad,
   c_bin c <> None -> In (a, ad) (zipd ad0 (c_args c) (cd_args d)) -> is_opt (a, ad) = true ->
   (forall shorts s, get_short_and_visible_aliases a = Some shorts -> In s shorts ->
-     sublist (opt_short_line c g (a, ad) s) (args_block c d g)) /\
+     sublist (opt_short_line bl c g (a, ad) s) (args_block bl c d g)) /\
   (forall longs l, get_long_and_visible_aliases a = Some longs -> In l longs ->
-     sublist (opt_long_line c g (a, ad) l) (args_block c d g)).
+     sublist (opt_long_line bl c g (a, ad) l) (args_block bl c d g)).
 Proof. exact block_options. Qed.
 Print Assumptions C16_zsh_block_options.
 
@@ -863,9 +863,9 @@ Proof. exact option_spellings_complete. Qed.
 Print Assumptions C16_zsh_option_spellings.
 
 (** ... a line for the short, every visible short alias, the long and every visible alias of a flag ... *)
-Theorem C16_zsh_block_flags : forall c d g a ad dashes name,
+Theorem C16_zsh_block_flags : forall bl c d g a ad dashes name,
   c_bin c <> None -> In (a, ad) (zipd ad0 (c_args c) (cd_args d)) -> is_flag (a, ad) = true ->
-  In (dashes, name) (flag_spellings a) -> sublist (zflag_line c g (a, ad) dashes name) (args_block c d g).
+  In (dashes, name) (flag_spellings a) -> sublist (zflag_line bl c g (a, ad) dashes name) (args_block bl c d g).
 Proof. exact block_flag_lines. Qed.
 Print Assumptions C16_zsh_block_flags.
 
@@ -878,19 +878,19 @@ Proof. exact flag_spellings_complete. Qed.
 Print Assumptions C16_zsh_flag_spellings.
 
 (** ... a line for every positional that takes at most one value ... *)
-Theorem C16_zsh_block_positionals : forall c d g a ad,
+Theorem C16_zsh_block_positionals : forall bl c d g a ad,
   c_bin c <> None -> In (a, ad) (zipd ad0 (c_args c) (cd_args d)) -> a_is_positional a = true ->
   (1 <? a_max_values a)%N = false ->
-  exists card, sublist (positional_line card (a, ad)) (args_block c d g).
+  exists card, sublist (positional_line card (a, ad)) (args_block bl c d g).
 Proof. exact block_positional_line. Qed.
 Print Assumptions C16_zsh_block_positionals.
 
 (** ... every non-hidden possible value on every line of an option that REQUIRES a value ([min_values() <> 0]; the
     recorded finding [zsh-optional-value] is the boundary) and on the line of a positional: raw in the [(v1 v2)] form,
     through escape_value in the [((v\:"help" ...))] form ... *)
-Theorem C16_zsh_option_values : forall c g a ad vs pv line,
+Theorem C16_zsh_option_values : forall bl c g a ad vs pv line,
   a_min_values a <> 0%N -> possible_values a = Some vs -> In pv vs -> pv_hide pv = false ->
-  In line (opt_lines c g (a, ad)) ->
+  In line (opt_lines bl c g (a, ad)) ->
   exists x, In (Zx x) line /\ (sublist (pv_name pv) x \/ sublist (zsh_escape_value (pv_name pv)) x).
 Proof. exact opt_line_values. Qed.
 Print Assumptions C16_zsh_option_values.
@@ -904,26 +904,26 @@ Print Assumptions C16_zsh_positional_values.
 
 (** ... and, when the command has subcommands, the two lines that lead to them: the [_..._commands] function and the
     state that selects the [case] block *)
-Theorem C16_zsh_block_subcommands : forall c d g,
+Theorem C16_zsh_block_subcommands : forall bl c d g,
   c_bin c <> None -> has_subcommands c = true ->
   sublist [Zx ([34; 58; 58; 32; 58; 95] ++ space_to_dd (bin_or_default c) ++ [95; 99; 111; 109; 109; 97; 110; 100; 115; 34; 32; 92])]
-          (args_block c d g) /\
-  sublist [Zx ([34; 42; 58; 58; 58; 32; 58; 45; 62] ++ c_name c ++ [34; 32; 92])] (args_block c d g).
+          (args_block bl c d g) /\
+  sublist [Zx ([34; 42; 58; 58; 58; 32; 58; 45; 62] ++ c_name c ++ [34; 32; 92])] (args_block bl c d g).
 Proof. exact block_subcommand_lines. Qed.
 Print Assumptions C16_zsh_block_subcommands.
 
 (** the arm of every name and visible alias of every subcommand is in the section of its parent *)
-Theorem C16_zsh_arms : forall p d sc sd w,
+Theorem C16_zsh_arms : forall bl p d sc sd w,
   In (sc, sd) (zipd cd0 (c_subs p) (cd_subs d)) -> In w (sc_words sc) ->
-  sublist (arm (args_block sc sd (Some p)) (zspec_subs sc sd) w) (zspec_subs p d).
+  sublist (arm (args_block bl sc sd (Some p)) (zspec_subs bl sc sd) w) (zspec_subs bl p d).
 Proof. exact arm_in_section. Qed.
 Print Assumptions C16_zsh_arms.
 
 (** the [_..._commands] functions: for EVERY node of the tree the file has the function named after its bin name, and
     its list has an entry ['name:about'] for every name and visible alias of every subcommand of that node *)
-Theorem C16_zsh_commands_functions : forall c d b n,
+Theorem C16_zsh_commands_functions : forall bl c d b n,
   zsh_ok c b -> (n = c \/ desc c n) ->
-  exists s nd, zsh_script c d = Some s /\
+  exists s nd, zsh_script bl c d = Some s /\
     sublist (zrender (commands_function (bin_or_default n) (subcommands_of n nd))) s.
 Proof. exact zsh_script_commands. Qed.
 Print Assumptions C16_zsh_commands_functions.
@@ -948,15 +948,15 @@ Print Assumptions C16_zsh_ok_nonvacuous.
 (** ... and there the arm [(add-all)] carries the block of [add-all], the arm [(x)] reached through the alias [a] of
     [add] the block of [x] *)
 Theorem C16_zsh_paths_nonvacuous :
-  exists s, zsh_script zx_root cd0 = Some s /\
-    sublist (zrender ([Zx [40; 97; 100; 100; 45; 97; 108; 108; 41]] ++ znl ++ args_block zx_add_all cd0 (Some zx_root))) s /\
-    sublist (zrender ([Zx [40; 120; 41]] ++ znl ++ args_block (zx_leaf [120] [112; 32; 97; 100; 100; 32; 120]) cd0 (Some zx_add))) s.
+  exists s, zsh_script bl0 zx_root cd0 = Some s /\
+    sublist (zrender ([Zx [40; 97; 100; 100; 45; 97; 108; 108; 41]] ++ znl ++ args_block bl0 zx_add_all cd0 (Some zx_root))) s /\
+    sublist (zrender ([Zx [40; 120; 41]] ++ znl ++ args_block bl0 (zx_leaf [120] [112; 32; 97; 100; 100; 32; 120]) cd0 (Some zx_add))) s.
 Proof. exact zsh_example_paths. Qed.
 Print Assumptions C16_zsh_paths_nonvacuous.
 
 (** class boundaries.  [zsh-optional-value]: an option with [num_args(0..=1)] and the possible value [zz]: no [zz] in the file *)
 Theorem C16_zsh_optional_value_refuted :
-  exists c d b s a vs pv, zsh_ok c b /\ zsh_script c d = Some s /\ In a (c_args c) /\ a_is_positional a = false /\
+  exists c d b s a vs pv, zsh_ok c b /\ zsh_script bl0 c d = Some s /\ In a (c_args c) /\ a_is_positional a = false /\
     possible_values a = Some vs /\ In pv vs /\ pv_hide pv = false /\ a_min_values a = 0%N /\
     ~ sublist (pv_name pv) s.
 Proof. exact zsh_optional_value_refuted. Qed.
@@ -964,7 +964,7 @@ Print Assumptions C16_zsh_optional_value_refuted.
 
 (** [alias-without-primary]: a visible short alias [x] of an option without a short: no [-x] in the file *)
 Theorem C16_zsh_alias_without_primary_refuted :
-  exists c d b s a, zsh_ok c b /\ zsh_script c d = Some s /\ In a (c_args c) /\ In ([120], true) (a_short_aliases a) /\
+  exists c d b s a, zsh_ok c b /\ zsh_script bl0 c d = Some s /\ In a (c_args c) /\ In ([120], true) (a_short_aliases a) /\
     ~ sublist [45; 120] s.
 Proof. exact zsh_alias_without_primary_refuted. Qed.
 Print Assumptions C16_zsh_alias_without_primary_refuted.
@@ -974,7 +974,7 @@ Print Assumptions C16_zsh_alias_without_primary_refuted.
 Theorem C16_zsh_space_in_name_refuted :
   linked zs_root /\ sibling_names zs_root /\ ~ nospace zs_root /\ desc zs_root zs_ab /\
   parser_of zs_root (bin_or_default zs_ab) = Some zs_b /\
-  exists s, zsh_script zs_root cd0 = Some s /\ ~ sublist [45; 120; 91] s.
+  exists s, zsh_script bl0 zs_root cd0 = Some s /\ ~ sublist [45; 120; 91] s.
 Proof. exact zsh_space_in_name_refuted. Qed.
 Print Assumptions C16_zsh_space_in_name_refuted.
 (** the same for the command tree AS THE USER WROTE IT ([Complete/ZshBuildProofs.v]): [binless c] = no subcommand carries an
@@ -987,13 +987,23 @@ Print Assumptions C16_zsh_build_linked.
 
 (** ... so [generate] (= [set_bin_name] + [build] + generator) writes a script for EVERY such tree, every assignment of
     texts and every non-empty bin name: [build] does not run out of fuel, no [expect] fires, the recursion ends *)
-Theorem C16_zsh_generate_total : forall c d bin,
-  binless c = true -> bin <> [] -> exists s, generate_zsh c d bin = Some s.
+Theorem C16_zsh_generate_total : forall bl c d bin,
+  binless c = true -> bin <> [] -> exists s, generate_zsh bl c d bin = Some s.
 Proof. exact generate_zsh_total. Qed.
 Print Assumptions C16_zsh_generate_total.
 
-Theorem C16_zsh_generate_is_built : forall c d bin b,
-  build (set_bin_name c bin) = Some b -> generate_zsh c d bin = zsh_script b (dbuild (set_bin_name c bin) d).
+Theorem C16_zsh_generate_is_built : forall bl c d bin b,
+  build (set_bin_name c bin) = Some b -> generate_zsh bl c d bin = zsh_script bl b (dbuild (set_bin_name c bin) d).
 Proof. exact generate_zsh_is_built. Qed.
 Print Assumptions C16_zsh_generate_is_built.
+(** the exclusion list [(-x --exclude ...)] at the head of an option / flag spec ([conflicts_with]; [bl c a] = the
+    blacklist of the argument, a parameter of the model): for a non-global argument the spellings -- short, then long --
+    of the arguments the blacklist names, IN THE ORDER OF THE BLACKLIST *)
+Theorem C16_zsh_conflicts_list : forall bl c a g,
+  a_global a = false ->
+  arg_conflicts bl c a g =
+  (if is_nil (filter_map (find_arg c) (bl c a)) then []
+   else [40] ++ intercalate [32] (push_conflicts (filter_map (find_arg c) (bl c a))) ++ [41]).
+Proof. exact conflicts_list. Qed.
+Print Assumptions C16_zsh_conflicts_list.
 (* ---- end zsh generator model ---- *)
